@@ -279,7 +279,7 @@ func baseSpec(c *vh.Ctx) spec {
 
 // ---- independent walker (cryptobyte) ----
 type refCert struct {
-	raw, tbs, issuer, subject, spki []byte
+	raw, tbs, issuer, subject, spki  []byte
 	verRaw, serial, sigalg, validity []byte
 	uid1, uid2                       []byte
 	version                          int64
@@ -634,7 +634,7 @@ func genAll(c *vh.Ctx) {
 		}
 		base := s.der()
 		baseHex := vh.Hex(base)
-		emit(base, "", "family base", f < 3)
+		emit(base, "", "family base", f < 2)
 		valid = append(valid, base)
 		scts := derExt(oidSCTList, false, sctList(c.Intn(3), c))
 		for i := 0; i <= len(s.exts); i++ {
@@ -642,7 +642,7 @@ func genAll(c *vh.Ctx) {
 				v := s
 				v.exts = insertAt(s.exts, i, ct)
 				d := v.der()
-				emit(d, baseHex, fmt.Sprintf("CT extension %d at index %d", k, i), f < 2 && i == 0)
+				emit(d, baseHex, fmt.Sprintf("CT extension %d at index %d", k, i), f == 1 && i == 0 && k == 0)
 				if c.Intn(4) == 0 {
 					valid = append(valid, d)
 				}
